@@ -140,12 +140,14 @@ PROPS['C12'] = {
              'one real-time start-destroy round; non-trivial = >=3 ops, >=2 sleepers, every real-time round; distinct = distinct op trace with results / '
              'program descriptor / (mode, pending count, race outcome).'),
     'min_nontrivial': [200, 2000],
-    'single_thread_scenarios': ('scheduler_manual', 'scheduler_virtual', 'scheduler_threads', 'scheduler_stop_race', 'scheduler_interval_stop'),
+    'single_thread_scenarios': ('scheduler_manual', 'scheduler_virtual', 'scheduler_threads', 'scheduler_stop_race', 'scheduler_interval_stop', 'scheduler_pool_rearm'),
     'jobs': [
         J('manual_asan', 'c12.cpp', 'asan', [30000, 1500000], scenario='scheduler_manual,scheduler_virtual', threads=1),
         J('threads_asan', 'c12.cpp', 'asan', [30000, 600000], scenario='scheduler_threads', threads=1),
         J('stop_asan', 'c12.cpp', 'asan', [30000, 1000000], scenario='scheduler_stop_race,scheduler_interval_stop', threads=1),
         J('stop_rel', 'c12.cpp', 'rel', [60000, 2000000], scenario='scheduler_stop_race,scheduler_threads', threads=1),
+        J('rearm_rel', 'c12.cpp', 'rel', [60000, 1500000], scenario='scheduler_pool_rearm', threads=1),
+        J('rearm_asan', 'c12.cpp', 'asan', [15000, 300000], scenario='scheduler_pool_rearm', threads=1),
         J('manual_casan', 'c12.cpp', 'casan', [0, 500000], scenario='scheduler_manual,scheduler_virtual', threads=1, tiers=(T,)),
     ],
 }
@@ -228,7 +230,7 @@ _C03_SCEN = [  # (scenario, threads, quick cases, thorough cases)
     ('future_mt', 5, 12000, 600000), ('future_async_mt', 5, 12000, 600000), ('mutex_mt', 4, 10000, 500000), ('mutex_pool_handoff', 1, 20000, 400000),
     ('queue_mt', 5, 8000, 400000), ('lqueue_mt', 5, 8000, 400000), ('shared_future_mt', 4, 10000, 500000),
     ('scheduler_threads', 1, 6000, 200000), ('scheduler_stop_race', 1, 6000, 200000), ('pool_mt', 4, 12000, 400000), ('publisher_mt', 4, 8000, 400000), ('signal_mt', 4, 8000, 400000), ('generator_programs', 2, 6000, 300000), ('aggregator_programs', 2, 4000, 200000), ('adapter_matrix', 2, 9000, 400000), ('storage_mt', 2, 12000, 500000), ('async_start_race', 2, 10000, 400000), ('queue_unblock_contended', 4, 6000, 300000), ('publisher_two_publishers', 4, 8000, 400000),
-    ('pool_nested', 1, 8000, 300000), ('pool_dependent', 1, 8000, 300000), ('frame_owned_parties', 1, 8000, 300000), ('async_programs', 1, 6000, 300000),
+    ('pool_nested', 1, 8000, 300000), ('scheduler_pool_rearm', 1, 6000, 150000), ('pool_dependent', 1, 8000, 300000), ('frame_owned_parties', 1, 8000, 300000), ('async_programs', 1, 6000, 300000),
 ]
 PROPS['C03'] = {
     'technique': 'ThreadSanitizer (happens-before race detection) over the shared multi-threaded scenario library; guarded fence annotation',
